@@ -344,6 +344,18 @@ func (e *wireExec) construct(i int, ts TokSpec) {
 		return
 	}
 	wellFormed(o, obj, "constructor")
+	// values a caller supplies are stored exactly (or were refused above): every argument and
+	// every plain metadata entry of the constructed token, against the harness's own encoding
+	if inv, ok := obj.(*invocation.Token); ok {
+		for _, kv := range ts.Inv.Args {
+			n, gerr := inv.Arguments().GetNode(kv.Key)
+			o.Eval("C10")
+			if gerr != nil || !storedEquals(n, kv.V) {
+				o.Violate("C10", "argument-altered", fmt.Sprintf("argument %q stored as %s, supplied %s", kv.Key, nodeHex(n), kv.V.canon()), map[string]string{"kind": kv.V.K})
+				break
+			}
+		}
+	}
 	issIdx := ts.iss()
 	if issIdx < 0 {
 		issIdx = 0
@@ -1053,6 +1065,9 @@ func (e *wireExec) roundtrip(w *wireTok) {
 			}
 			var tk token.Token
 			var err error
+			// first the same decoder on a transfer that broke off half way (it fails, as it must):
+			// nothing of that may linger when the complete bytes arrive
+			guardT(o, dec+" (interrupted transfer)", len(data), false, func() { _, _, _ = runDecoder(dec, w.spec.Kind, data[:len(data)/2]) })
 			st := guardT(o, dec, len(data), false, func() { tk, _, err = runDecoder(dec, w.spec.Kind, data) })
 			if st.panicked || st.hung {
 				continue
@@ -1171,6 +1186,28 @@ func (e *wireExec) sigStep(s *XStep, w *wireTok, env *envelope) {
 		o.Sig("C09", "hostile-header", w.alg, s.At%2, s.Val%6, len(acc) > 0)
 		e.conservation(acc, w, data, "hostile varsig header", desc, "cbor")
 		return
+	case "zero_hash":
+		// content the issuer never signed (another audience) under a key-less signature that
+		// verifies against an all-zero digest (NIST-curve issuers only)
+		pub, perr := e.cast.ent(w.spec.iss()).id.PubKey()
+		if perr != nil {
+			return
+		}
+		der, raw, ok := zeroHashForgery(pub, int64(2+s.Val%5))
+		if !ok {
+			return
+		}
+		other := e.cast.ent(w.spec.iss() + 1 + s.Val%3).id.String()
+		for i := 0; i+1 < len(m.sp.Kids); i += 2 {
+			if strings.HasPrefix(string(m.sp.Kids[i].Data), "ucan/") {
+				m.sp.Kids[i+1].MapSet("aud", cbText(other))
+			}
+		}
+		m.sig.Data = der
+		if s.At%2 == 1 {
+			m.sig.Data = raw
+		}
+		desc = "signature valid for an all-zero digest"
 	case "unknown_header":
 		m.sp.MapSet("h", cbBytes([]byte{0x34, byte(s.Val), 0x71}))
 	case "no_header":
@@ -1894,6 +1931,43 @@ func (e *wireExec) hostileStep(s *XStep, w *wireTok, env *envelope) {
 			wrap = func(c *CB) *CB { return cbArray(cbText("all"), cbText(".x"), c) }
 		}
 		pl.MapSet("pol", cbArray(nestCB(depth, leaf, wrap)))
+	case "odd_operator":
+		// a policy whose operator is not one of the language: every length from 0 to 14 ASCII
+		// bytes followed by a 1-, 2-, 3- or 4-byte character (or nothing, or more text), long ones,
+		// invalid UTF-8; as a 2- and 3-element statement, at top level and nested
+		if kind != "dlg" {
+			return
+		}
+		tails := []string{"", "e", "\u00e9", "\u20ac", "\U0001f512", "\u00e9\u00e9\u00e9", "\xc3", "\xff\xfe"}
+		op := strings.Repeat("a", s.At%15) + tails[s.Val%len(tails)]
+		switch (s.Val / len(tails)) % 4 {
+		case 1:
+			op += strings.Repeat("z", 100)
+		case 2:
+			op = strings.Repeat("\u20ac", 1+s.At%6)
+		case 3:
+			op = strings.ToUpper(op) + "=="
+		}
+		st := cbArray(cbText(op), cbText(".a"), cbInt(1))
+		switch (s.Val / 32) % 4 {
+		case 1:
+			st = cbArray(cbText(op), cbText(".a"))
+		case 2:
+			st = cbArray(cbText("not"), st)
+		case 3:
+			st = cbArray(cbText("any"), cbText(".l"), cbArray(cbText("and"), cbArray(st)))
+		}
+		pl.MapSet("pol", cbArray(st))
+		// and straight into the policy decoders
+		polBytes := cbArray(st).Encode()
+		guardT(o, "policy.FromIPLD(odd operator)", len(polBytes), false, func() {
+			if n, err := ipld.Decode(polBytes, dagcbor.Decode); err == nil {
+				_, _ = policy.FromIPLD(n)
+				if js, err := ipld.Encode(n, dagjson.Encode); err == nil {
+					_, _ = policy.FromDagJson(string(js))
+				}
+			}
+		})
 	case "bad_did":
 		algs := []string{"ed25519", "p256", "p384", "p521", "secp256k1", "rsa", "x25519", "junk"}
 		d := badDID(algs[s.Val%len(algs)], s.At)
